@@ -143,7 +143,7 @@ impl Object for Function {
                         let s = std::str::from_utf8(&data)?;
                         let func = PsFunc::parse(s)?;
                         let info = stream.info.info;
-                        Ok(Function::PostScript { func, domain: info.domain, range: info.range.unwrap() })
+                        Ok(Function::PostScript { func, domain: info.domain, range: try_opt!(info.range) })
                     },
                     0 => {
                         let info = stream.info.info;
